@@ -54,12 +54,14 @@ type gen struct {
 	maxNodes int
 	maxDepth int
 	noCSOOG  bool // steer around F-C12-b
+	auth     bool // generate AUTHCALL steps
 	steered  bool
 }
 
 var childKinds = []fkind{kCall, kCall, kCall, kCallCode, kDelegate, kDelegate, kStatic, kStatic, kCreate, kCreate, kCreate2, kCreate2}
 
-func (g *gen) node(kind fkind, depth int) *node {
+func (g *gen) node(kind fkind, depth int, static bool) *node {
+	static = static || kind == kStatic
 	t := g.t
 	g.nodes++
 	n := &node{kind: kind}
@@ -86,6 +88,8 @@ func (g *gen) node(kind fkind, depth int) *node {
 	nsteps := rapid.IntRange(0, 6).Draw(t, "nsteps")
 	if depth == 1 {
 		nsteps = rapid.IntRange(2, 7).Draw(t, "rootSteps")
+	} else if static && rapid.IntRange(0, 3).Draw(t, "staticFocus") > 0 {
+		nsteps = rapid.IntRange(1, 2).Draw(t, "staticSteps") // a single state-modifying opcode decides the frame
 	}
 	nchildren := 0
 	for i := 0; i < nsteps; i++ {
@@ -102,18 +106,23 @@ func (g *gen) node(kind fkind, depth int) *node {
 				s.topics = append(s.topics, uint64(rapid.IntRange(0, 1<<20).Draw(t, "topic")))
 			}
 			n.steps = append(n.steps, s)
+		case (k == 7 || k == 8) && g.auth:
+			n.steps = append(n.steps, step{k: sAuthCall, to: rapid.IntRange(0, len(eoas)-1).Draw(t, "to"), amount: uint64(rapid.IntRange(0, 3).Draw(t, "amount"))})
 		case k == 6:
 			n.steps = append(n.steps, step{k: sTransfer, to: rapid.IntRange(0, len(eoas)-1).Draw(t, "to"), amount: uint64(rapid.IntRange(1, 4).Draw(t, "amount"))})
 		default:
 			if depth < g.maxDepth && g.nodes < g.maxNodes && nchildren < 3 {
 				nchildren++
 				ck := rapid.SampledFrom(childKinds).Draw(t, "kind")
-				n.steps = append(n.steps, step{k: sChild, child: g.node(ck, depth+1)})
+				n.steps = append(n.steps, step{k: sChild, child: g.node(ck, depth+1, static)})
 			}
 		}
 	}
 	// outcome
 	o := rapid.IntRange(0, 19).Draw(t, "outcome")
+	if static && depth > 1 && o > 9 && rapid.Bool().Draw(t, "staticReturns") {
+		o = 0
+	}
 	if depth == 1 && o > 8 && rapid.IntRange(0, 2).Draw(t, "rootMostlyReturns") > 0 {
 		o = 0
 	}
@@ -165,17 +174,39 @@ func (g *gen) node(kind fkind, depth int) *node {
 	return n
 }
 
+// genTree returns the tree and whether the generator steered around F-C12-b / F-C12-c (only done
+// when they are listed as known).
 func genTree(t *rapid.T, rootKind fkind, maxNodes, maxDepth, idBase int, noCSOOG bool) (*node, bool) {
-	g := &gen{t: t, maxNodes: maxNodes, maxDepth: maxDepth, noCSOOG: noCSOOG}
-	root := g.node(rootKind, 1)
+	g := &gen{t: t, maxNodes: maxNodes, maxDepth: maxDepth, noCSOOG: noCSOOG, auth: true}
+	root := g.node(rootKind, 1, false)
 	root.gasMode = gasBudget
 	if root.value == 2000 {
 		root.value = 2
 	}
 	root.number(idBase)
+	knownC := stats.IsKnown("F-C12-c")
 	root.walk(func(n *node) {
 		if n.deposit < n.span {
 			n.deposit = n.span
+		}
+		underStatic := false
+		for x := n; x != nil; x = x.parent {
+			if x.kind == kStatic {
+				underStatic = true
+			}
+		}
+		for i := range n.steps {
+			s := &n.steps[i]
+			if s.k != sAuthCall {
+				continue
+			}
+			s.key = n.id*8 + i
+			if _, ok := staticCtxOK(n); !ok { // the signature binds the invoking contract's address
+				*s = step{k: sTstore, slot: 0, val: 1}
+			} else if underStatic && knownC {
+				*s = step{k: sTstore, slot: 0, val: 1}
+				stats.Exclude("F-C12-c")
+			}
 		}
 	})
 	return root, g.steered
@@ -427,6 +458,9 @@ func classify(tree *node, rp, pred *replayer, prefix string) string {
 			stats.Class(prefix + "frame:unreached")
 			return
 		}
+		if underStatic(n) {
+			stats.Class(prefix + "static_frame_first_write:" + firstWrite(n))
+		}
 		stats.Class(prefix + "kind:" + kindName[n.kind])
 		if ok {
 			stats.Class(prefix + "ok:" + outName[n.out])
@@ -443,7 +477,7 @@ func classify(tree *node, rp, pred *replayer, prefix string) string {
 		}
 		for _, s := range n.steps {
 			if s.k != sChild {
-				stats.Class(prefix + "effect_in_failed_frame:" + []string{"SSTORE", "TSTORE", "LOG", "TRANSFER"}[s.k])
+				stats.Class(prefix + "effect_in_failed_frame:" + []string{"SSTORE", "TSTORE", "LOG", "TRANSFER", "", "AUTHCALL"}[s.k])
 			} else {
 				stats.Class(prefix + "effect_in_failed_frame:child_" + kindName[s.child.kind])
 			}
@@ -629,3 +663,40 @@ func TestFrameTrees(t *testing.T) {
 }
 
 var _ = os.Getenv
+
+func firstWrite(n *node) string {
+	for _, s := range n.steps {
+		switch s.k {
+		case sSstore:
+			return "SSTORE"
+		case sTstore:
+			return "TSTORE"
+		case sLog:
+			return fmt.Sprintf("LOG%d", len(s.topics))
+		case sTransfer:
+			return "CALL_with_value"
+		case sAuthCall:
+			return "AUTHCALL"
+		case sChild:
+			if s.child.kind.creates() {
+				return kindName[s.child.kind]
+			}
+			if s.child.kind == kCall && s.child.value > 0 {
+				return "CALL_with_value"
+			}
+		}
+	}
+	if n.out == oSelfdestruct {
+		return "SELFDESTRUCT"
+	}
+	return "none"
+}
+
+func underStatic(n *node) bool {
+	for x := n; x != nil; x = x.parent {
+		if x.kind == kStatic {
+			return true
+		}
+	}
+	return false
+}
